@@ -2,7 +2,7 @@
 match, accumulate-not-overwrite, completeness test).  Attribution of values to call trees is NOT decided."""
 import ast
 
-from ..astq import is_name, is_self_attr, kwarg, returns_of, compare_normal
+from ..astq import Facts, compare_normal, conds, expand, is_name, is_self_attr, kwarg, returns_of, returns_with_conds
 from ..cfg import CFG
 from ..core import AnalysisError, norm, walk_local
 from ..xform import query as Q
@@ -85,8 +85,7 @@ def run(repo, chk):
     c = [x for x in ast.walk(fk.node) if isinstance(x, ast.Call) and kwarg(x, "template") is not None]
     ok = len(c) == 1 and isinstance(kwarg(c[0], "template"), ast.Constant) and kwarg(c[0], "template").value is False
     chk.ob("R07.2", "interpret.BaseAccumulator.fork:forks-are-not-templates", ok, fk.where, "a fork is created with template=False: nested matches of the same selector do not close on their own")
-    par = [n for n in walk_local(fk.node) if isinstance(n, ast.Assign) and any(is_name(t, "parent") for t in n.targets)]
-    ok = len(par) == 1 and norm(par[0].value) == "None if self.template else self" and c and is_name(kwarg(c[0], "parent"), "parent")
+    ok = len(c) == 1 and kwarg(c[0], "parent") is not None and expand(kwarg(c[0], "parent"), fk.node) == "None if self.template else self"
     chk.ob("R07.2", "interpret.BaseAccumulator.fork:parent-chain", ok, fk.where, "a fork of a template is a root; any other fork shares its parent's captures")
 
     # ---------------- R07.3
@@ -140,8 +139,11 @@ def run(repo, chk):
     chk.ob("R07.4", "interpret.Total.__init__:required-names-and-children", ok, ti.where,
            "the required names are the selector's captures (inherited by forks), and every fork is recorded as a child of its parent")
     lv = repo.func("interpret.Total.leaves")
-    tlv = norm(lv.node)
-    chk.ob("R07.4", "interpret.Total.leaves:leaf-is-an-element-fork", "if isinstance(self.selector, Element): return [self]" in tlv and "for child in self.children: rval += child.leaves()" in tlv, lv.where,
+    flv = Facts(lv.node)
+    rets = returns_with_conds(lv.node)
+    ok = len(rets) == 2 and flv.has("return [self]", exactly=["isinstance(self.selector, Element)"]) \
+        and flv.has("return [_t for child in self.children for _t in child.leaves()]", exactly=["not isinstance(self.selector, Element)"])
+    chk.ob("R07.4", "interpret.Total.leaves:leaf-is-an-element-fork", ok, lv.where,
            "leaves are the forks made for a focused element; inner nodes contribute the leaves of their children")
     bd = repo.func("interpret.BaseAccumulator.build")
     tb = norm(bd.node)
